@@ -14,7 +14,7 @@
  *     hash:m:r1,r2,..  subseq:T1,T2,..  set:<path>  scoped  balanced
  *     first:T (first token after the first paren)  & | ! (RPN operators)
  * Token arguments are percent-encoded.  If no rule matches: exit 0, no output.
- * Faults: sleep spin1 spin4 alloc abort segv kill
+ * Faults: sleep spin1 spin4 alloc abort segv kill forksleep
  * $VCMD_DELAY = "<seed>:<max_us>" adds a deterministic per-candidate delay.
  */
 #define _GNU_SOURCE
@@ -295,6 +295,13 @@ static void do_fault(const char *f) {
       memset(p, 1, sz);
       if (tot >= (1024u << 20)) for (;;) pause();
     }
+  }
+  if (strcmp(f, "forksleep") == 0) {
+    /* a wrapper-script like command: a helper process inherits stdout and
+       stderr and outlives the command itself */
+    pid_t c = fork();
+    if (c == 0) { execl("/bin/sleep", "sleep", "100000", (char *)NULL); _exit(127); }
+    for (;;) pause();
   }
   if (strcmp(f, "abort") == 0) abort();
   if (strcmp(f, "segv") == 0) { signal(SIGSEGV, SIG_DFL); raise(SIGSEGV); }
